@@ -9,7 +9,7 @@ git apply "$dir/patch.diff" || { echo "patch does not apply"; exit 2; }
 cd /verif
 for c in "$@"; do
   start=$(date +%s)
-  out=$(VERIF_SEED=${VERIF_SEED:-1} ./check $c ${TIER:-quick} 2>&1 | grep -v "^KNOWN-FINDING" | grep "^VIOLATION\|^$c \|^violation\|INCONCLUSIVE" | cut -c1-260)
+  out=$(VERIF_EVIDENCE_DIR=/verif/out/trial-evidence VERIF_SEED=${VERIF_SEED:-1} ./check $c ${TIER:-quick} 2>&1 | grep -v "^KNOWN-FINDING" | grep "^VIOLATION\|^$c \|^violation\|INCONCLUSIVE" | cut -c1-260)
   echo "== $c ($(( $(date +%s) - start ))s)"; echo "$out" | tail -6
 done
 git -C /repo checkout -- . && git -C /repo status --short
